@@ -68,6 +68,16 @@ def main(run):
         if b is None:
             continue
         run.count('own_text_views')
+        # ... and the text is not edited on the way: the term of the result does not see a write through `&mut` (an owned view that
+        # lower-cases its buffer before wrapping it yields the view of another text), so a view function takes no mutable borrow at all
+        for bi, bl in enumerate(b['blocks']):
+            if bl['cleanup']:
+                continue
+            for s in bl['stmts']:
+                if s['k'] == 'assign' and s['rv']['k'] in ('ref', 'rawptr') and s['rv'].get('mut', s['rv']['k'] == 'rawptr' and 'mut' in str(s['rv'])):
+                    run.violation(f'viewmut|{fn}', f'{P.where(b)} {fn}: takes a mutable borrow ({mir.rv_str(s["rv"])}, bb{bi}) before it yields the percent-decoded '
+                                  f'view: the text viewed may no longer be the text of the value it is called on')
+                    break
         t = ctx.I.expand(ctx.I.terms(fn).ret())
         r = ctx.text_root(t)
         for _ in range(4):
